@@ -333,7 +333,7 @@ func checkC06(c *Ctx) {
 	}
 	// (i) ParseGlobals on every line form
 	lines := []string{"", "// comment", "A = 1", "A=1", " A = 'x' ", "A.B = true", "A = null", "A = 1.5", "A = -1", "A = 0x1F", "A", "= 1", "A = ", "A = 1 2", "A = $x", "A = $x.y", "A = 1 < 'a'",
-		"A = [1, 2]", "A = ['k': 1]", "A = f(1)", "A = length(1)", "A = not", "A = 'unterminated", "A = 1 / 0", "A = 1 % 0", "A = $ij.x", "A = range(1, 2, 0)", "A = -'a'", "A = 1 == 1 == 1", "A = B", "A = 'a' + 1", "A = =", "A = '\\u12'", "A = 'ab\\u00e'", "A = '\\x'", "A = '\\u00e9'", "\x00", "A = \xff"}
+		"A = [1, 2]", "A = ['k': 1]", "A = f(1)", "A = length(1)", "A = not", "A = 'unterminated", "A = 1 / 0", "A = 1 % 0", "A = $ij.x", "A = range(1, 2, 0)", "A = -'a'", "A = 1 == 1 == 1", "A = B", "A = 'a' + 1", "A = =", "A = '\\u12'", "A = 'ab\\u00e'", "A = '\\x'", "A = '\\u00e9'", "\x00", "A = \xff", "A = /", "A = 1 /", "A = 1 // c", "A = 'http://x' // c", "A = 'a' +", "A = -", "A = [", "A = 'x' /"}
 	type gin struct {
 		text   string
 		reader string // "" = whole input at once; "1" = one byte per Read; "7" = seven bytes per Read
